@@ -23,7 +23,7 @@ def run(ctx):
     import os
     for f in glob.glob(os.path.join(common.VERIF, "evidence", "replays", "C04-*.json")):
         os.remove(f)
-    ctx.extract(["gate", "gatesig", "gatereg", "gatetab"])
+    ctx.extract(["gate", "gatesig", "gatereg", "gatetab", "gateuf"])
     # three theorem modules over three regenerated modules, so that a change to check_roto_type / check_args /
     # get_function breaks the obligations of C04, a change to force_filtermap_types or TypeInfo::convert exactly
     # those of C04Sig and a change to a Value::resolve body or the registry exactly those of C04Reg
@@ -43,6 +43,9 @@ def run(ctx):
     # how Module::functions is built (Mir::lower, lir::lower, the helper generators, declare_function): a change
     # there breaks exactly the obligations of C04Tab
     prove(PROPS + "Tab", ["RotoV.Model.GateTab"])
+    # the one piece of package state a retrieval writes to (UnionFind::find compresses paths): a change to
+    # find / find_ref / TypeInfo::resolve breaks exactly the obligations of C04UF
+    prove(PROPS + "UF", ["RotoV.Lemmas.GateUF", "RotoV.Model.GateUF"])
     # the property about programs: the gate theorems composed with the table theorems (no definitions of its own)
     prove(PROPS + "All")
     # the driver imports Generated.Gate and Generated.GateTab: built on its own, so that a failed extraction of
